@@ -13,6 +13,7 @@
 package c04
 
 import (
+	"github.com/lyraproj/pcore/types"
 	"verif/harness/core"
 	"verif/harness/lat"
 	"verif/harness/sx"
@@ -124,17 +125,33 @@ func emptyKeyCulprit(env *lat.Env, x lat.Val) bool {
 	if !empty {
 		return false
 	}
-	v, err := env.BuildVal(x)
-	if err != nil {
-		return false
+	// the mechanism: among the values of the entries there are x and y whose detailed types are a Struct S and a Hash type H
+	// with S accepting H (the exempt rule: an all-optional Struct accepts ANY Hash type of fitting size) although y is not an
+	// instance of S — the commonType fold then forgets H
+	var vals []px.Value
+	for _, e := range x.Es {
+		v, err := env.BuildVal(e.V)
+		if err != nil {
+			return false
+		}
+		vals = append(vals, v)
 	}
-	var dt px.Type
-	lat.Safely(func() { dt = px.DetailedValueType(v) })
-	if dt == nil {
-		return false
-	}
-	enc, err := lat.EncTy(dt)
-	return err == nil && lat.ContainsK(enc, "struct")
+	found := false
+	lat.Safely(func() {
+		for _, sv := range vals {
+			st, ok := px.DetailedValueType(sv).(*types.StructType)
+			if !ok {
+				continue
+			}
+			for _, hv := range vals {
+				ht, ok := px.DetailedValueType(hv).(*types.HashType)
+				if ok && px.IsAssignable(st, ht) && !px.IsInstance(st, hv) {
+					found = true
+				}
+			}
+		}
+	})
+	return found
 }
 
 func exec(c px.Context, op string, args []sx.Sexp) core.Result {
